@@ -798,6 +798,14 @@ class Interp:
                     and not getattr(self, '_in_dataclass_init', False):
                 yield self.raise_py(AttributeError, 'frozen dataclass'), st
                 return
+            if name == '_value' and '_value' in o.fields and not self.ctx.concrete_math:
+                # strict write frame for the magnitude of a quantity (C13): a quantity that already HAS a magnitude is
+                # never written again, whatever value is stored (frame conditions are about locations written - over the
+                # reals a re-derived magnitude is equal, in binary64 it drifts; for tangent units it wraps)
+                fn = st.frame.finfo.qualname
+                self.ctx.oblige(st, f'{fn}#frame-write:magnitude-of-an-existing-quantity-is-never-written@L{getattr(node, "lineno", 0)}',
+                                'frame', 'clause', z3.BoolVal(False), getattr(node, 'lineno', None),
+                                note=f'store to _value of an existing {o.cls.__name__} in {fn}')
             o.fields[name] = v
             yield None, st
             return
